@@ -101,7 +101,7 @@ def sched(explanation, extra=None, **kw):
 
 PROPS["C04"] = sched("At every scheduling step of every explored interleaving, with all threads parked, every key visible in the index must resolve to an existing blob of the recorded size; at quiescence and after reopen every value must read back intact.")
 PROPS["C05"] = sched("Every read under every explored interleaving must succeed, and a brute-force search must find a real-time-respecting linearization (get/put one point, remove/remove_range two points) that explains all results and the final contents; readers are drained after further steps.")
-PROPS["C15"] = sched("A reachable scheduling state with unfinished threads and no enabled thread (all pending lock acquisitions blocked) is a deadlock; a running thread that reaches no scheduling point for 20 s is a hang. All pairs of API calls incl. explicit and rollover checkpoints and clean-up, unbounded; triples bounded.")
+PROPS["C15"] = sched("A reachable scheduling state with unfinished threads and no enabled thread (all pending lock acquisitions blocked) is a deadlock; a running thread that reaches no scheduling point for 60 s is a hang. All pairs of API calls incl. explicit and rollover checkpoints and clean-up, unbounded; triples bounded.")
 for _p in ("C01", "C07", "C12", "C13"):
     PROPS[_p]["engines"].append({"engine": "seqtx", "shim": False})
 PROPS["C13"]["engines"].append({"engine": "sched", "shim": True})
